@@ -31,6 +31,21 @@ func (v mval) String() string {
 	return v.id
 }
 
+// same reports whether two model values are indistinguishable to a reader
+// (empty values carry no id).
+func (v mval) same(o mval) bool {
+	if v.present != o.present {
+		return false
+	}
+	if !v.present {
+		return true
+	}
+	if v.pad < 0 || o.pad < 0 {
+		return v.pad < 0 && o.pad < 0
+	}
+	return v.id == o.id
+}
+
 func (v mval) matches(found bool, got string) bool {
 	if !v.present {
 		return !found
